@@ -58,6 +58,12 @@ CHECKS = {
  "C18": ("exploration", "4/C18", "runtime monitoring: differential oracle (reference header rule using go-ethereum's difficulty and EIP-1559 code + block-tree model) vs the real 09-eth client; real ethash on recorded headers, hook-skipped ethash on synthetic trees",
          "Recorded mainnet children and seal/field corruptions with the real seal check; synthetic trees with forks up to 6+ levels below the tip in random submission order, duplicates and 18 single-field perturbations; after every accepted header all consensus states up to the latest header must lie on the parent-linked branch ending there.",
          "Hook H2 skips only the ethash computation for synthetic headers; trusting period large enough that pruning does not interfere."),
+ "C16": ("exploration", "4/C16", "runtime monitoring: twin-execution oracle (original chain vs a fresh chain initialised from its genesis export) over all TIBC gRPC queries and lock-step follow-up messages",
+         "Chains reached by the adversarial packet workload (client updates steered onto heights whose encoding contains 0x2F) are exported with the module manager's genesis export and re-imported; all 17 TIBC queries over every key of the original's raw dump and follow-up messages (pending relays proven at stored old heights, governance, client updates that must prune, cleans, replays of every old receive, voucher send-backs) must behave identically. Three recorded known findings (no genesis field for clean points / max acked sequence, no genesis for the transfer modules' class traces).",
+         "simapp's default export (all modules) cannot run for reasons unrelated to TIBC (evidence keeper without store key); the explicit module list without `evidence` is used. After the first message-level difference a twin is abandoned (later differences would be cascades)."),
+ "C20": ("exploration", "4/C20", "runtime monitoring: byte-level comparison of recorded result streams of repeated executions (same process, fresh processes with perturbed environment, injected TMPDIR fault)",
+         "Histories with every TIBC transaction kind incl. BSC client updates (valid/invalid synthetic headers) and ETH updates on recorded mainnet headers with the real ethash check are executed 3-7x in one process and in fresh processes with other GOMAXPROCS / TZ / LANG / junk-filled TMPDIR / missing TMPDIR; per block, inputs (time, tx bytes) and outputs (code, codespace, log, gas, data, events, app hash) are digested and compared; differing inputs = harness nondeterminism = inconclusive.",
+         "Go randomises map iteration per range statement, so order dependence shows within a few repeats; a run under -race is not part of the registered commands."),
 }
 PENDING = {
 }
